@@ -138,7 +138,7 @@ impl Prop for C04 {
         "C04"
     }
     fn rule(&self) -> String {
-        "graphs of all 8 kinds built by construction: n in 0..=9 (oracle: enumeration of all simple paths with pruning), n in 10..=20 and n in 21..=34 (oracle: Floyd-Warshall + path counts on the shortest-path DAG; takes the parallel code path), shape catalogue mixed in, shuffled insertion order; weight modes unweighted / positive dyadic / tie-rich {1,2} / non-negative with zeros (distances and path validity only) / non-dyadic floats (distances bit-equal to a same-fold Bellman-Ford, path validity). Calls: single_source from every source with (first_only,with_paths) in {(F,T),(T,T),(F,F)}, in weighted and hop-count mode, multi_source on a generated source subset, all_pairs, and all_pairs with one generated target (inside a pool of 2-4 threads when n > 20). Non-trivial = some pair has >= 2 shortest paths, or some pair is unreachable, or parallel edges of different weight exist; distinct = distinct serialised case. Exhaustive block: all graphs on <= 3 nodes of the 4 single-edge kinds.".into()
+        "graphs of all 8 kinds built by construction: n in 0..=9 (oracle: enumeration of all simple paths with pruning), n in 10..=20 and n in 21..=34 (oracle: Floyd-Warshall + path counts on the shortest-path DAG; takes the parallel code path), shape catalogue mixed in, shuffled insertion order; weight modes unweighted / positive dyadic / tiny dyadic (2^-40 scale) / large dyadic (2^30 scale) / tie-rich {1,2} / non-negative with zeros (distances and path validity only) / non-dyadic floats (distances bit-equal to a same-fold Bellman-Ford, path validity). Calls: single_source from every source with (first_only,with_paths) in {(F,T),(T,T),(F,F)}, in weighted and hop-count mode, multi_source on a generated source subset, all_pairs, and all_pairs with one generated target (inside a pool of 2-4 threads when n > 20). Non-trivial = some pair has >= 2 shortest paths, or some pair is unreachable, or parallel edges of different weight exist; distinct = distinct serialised case. Exhaustive block: all graphs on <= 3 nodes of the 4 single-edge kinds.".into()
     }
     fn assumptions(&self) -> Vec<String> {
         vec!["weights are non-negative; completeness of the path set is only asserted for strictly positive dyadic weights (exact sums)".into(), "the oracle library harness/src/oracle.rs".into()]
@@ -160,10 +160,11 @@ impl Prop for C04 {
         v
     }
     fn strategy(&self, _tier: Tier) -> BoxedStrategy<SpCase> {
-        let small = graph_strategy(&ALL_KINDS, 0, 9, max_edges_small, &[0, 1, 1, 3, 3, 2, 4], 4);
-        let mid = graph_strategy(&ALL_KINDS, 10, 20, max_edges_large, &[0, 1, 3, 4], 3);
-        let large = graph_strategy(&ALL_KINDS, 21, 34, max_edges_large, &[0, 1, 3, 4], 3);
-        (prop_oneof![30 => small, 2 => mid, 1 => large], any::<u32>()).prop_map(|(g, sources)| SpCase { g, sources }).boxed()
+        let small = graph_strategy(&ALL_KINDS, 0, 9, max_edges_small, &[0, 1, 1, 3, 3, 2, 4, 5, 6], 4);
+        let mid = graph_strategy(&ALL_KINDS, 10, 20, max_edges_large, &[0, 1, 3, 4, 5, 6], 3);
+        let large = graph_strategy(&ALL_KINDS, 21, 34, max_edges_large, &[0, 1, 3, 4, 5, 6], 3);
+        let boundary = boundary_graph_strategy(&ALL_KINDS, max_edges_large, &[0, 1, 3], 3, 255);
+        (prop_oneof![1500 => small, 100 => mid, 50 => large, 1 => boundary], any::<u32>()).prop_map(|(g, sources)| SpCase { g, sources }).boxed()
     }
     fn random_cases(&self, tier: Tier) -> u32 {
         tier.pick(100_000, 1_000_000)
@@ -178,12 +179,13 @@ impl Prop for C04 {
         let modes: Vec<bool> = if ng.weighted { vec![true, false] } else { vec![false] };
         for weighted in modes {
             let w = weight_matrix(&ng, weighted);
-            let positive = !weighted || matches!(case.g.wmode, 1 | 3);
-            let exact_arith = !weighted || case.g.wmode != 4;
+            let positive = !weighted || matches!(case.g.wmode, 1 | 3 | 5 | 6);
+            let exact_arith = !weighted || !matches!(case.g.wmode, 4 | 7);
             let d = floyd(&w);
             let mname = if weighted { "weighted" } else { "hops" };
             let mut all: Vec<HashMap<String, ShortestPathInfo<String>>> = vec![];
-            for s in 0..n {
+            let sources: Vec<usize> = if n > 40 { vec![0, n / 2, n - 1, (case.sources as usize) % n] } else { (0..n).collect() };
+            for s in sources {
                 let dist_row: Vec<f64> = if exact_arith { d[s].clone() } else { bellman_ford(&w, s) };
                 let brute = if small && positive && exact_arith { Some(brute_shortest_paths(&w, s).1) } else { None };
                 let sigma = if !small && positive && exact_arith { Some(sigma_from(&w, &d, s)) } else { None };
@@ -290,7 +292,7 @@ impl Prop for C04 {
         }
         out.class(format!("kind_{}", ng.spec().label()));
         out.class(format!("wmode_{}", case.g.wmode));
-        out.class(if small { "n<=10" } else if n <= 20 { "n_11_to_20" } else { "n>20_parallel_path" });
+        out.class(if small { "n<=10" } else if n <= 20 { "n_11_to_20" } else if n <= 34 { "n>20_parallel_path" } else { "boundary_size_35_to_255" });
         if case.g.shape != 0 {
             out.class(format!("shape_{}", case.g.shape));
         }
